@@ -920,7 +920,8 @@ pub fn has_context_conflict(w: &GWorld) -> bool {
           if tm.media == Media::Json {
             without_attr.insert(tm.url.clone());
           }
-          if dynamic {
+          // the dynamic-branch leniency exists for JSON only
+          if dynamic && tm.media == Media::Json {
             lenient.insert(tm.url.clone());
           } else {
             strict.insert(tm.url.clone());
